@@ -23,7 +23,7 @@ type ShadowEntry struct {
 	Certain   bool
 	Why       string // why uncertain
 	StoredSeq int64
-	Validated int // number of 304s applied
+	Validated int         // number of 304s applied
 	Replaced  *world.Call // the reply this one replaced after a validation (nil if none)
 }
 
